@@ -340,7 +340,12 @@ pub fn run(args: &Args, rng: &mut Rng, sink: &mut Sink) {
                 } else if copy_table.is_none() {
                     copy_table = Some(tb.clone());
                 }
-                format!("(Ok ({}, {}, {}))", cbytes(&tb), cstrs(comp, comp_offs), dec)
+                let mut comp_rec = comp.clone();
+                if crate::common::plant("fsst-diff") && path == "table" && ci == 0 && !comp_rec.is_empty() {
+                    let mid = comp_rec.len() / 2;
+                    comp_rec[mid] ^= 1; // recorded compressed byte differs from the model (sanity test of the check)
+                }
+                format!("(Ok ({}, {}, {}))", cbytes(&tb), cstrs(&comp_rec, comp_offs), dec)
             }
         };
         if len < 8000 {
